@@ -63,7 +63,9 @@ def impl_eval(case):
     if case['k'] == 'interleave':
         return interleave_eval(case)
     cfg = cfg_of(case)
-    codec, blocked = case['codec'], bool(case['b'])
+    # 'codec' names the character set (what the model and the reference use); 'codec_name' is the SPELLING handed to the
+    # library — any name or alias Python's codec registry resolves to that character set
+    codec, blocked = case.get('codec_name') or case['codec'], bool(case['b'])
     msgs = [iu.dict_unwire(w) for w in case['msgs']]
     exps = [iu.dict_unwire(w) for w in case['exps']]
     try:
@@ -274,6 +276,28 @@ def explore(run, tier):
                                   'msgs': [iu.dict_wire(m) for m, _ in pairs], 'exps': [iu.dict_wire(e) for _, e in pairs],
                                   'with': i % 2 == 0, 'many': i % 4 == 0, 'defaultcfg': cfg == 'pkg' and i % 3 == 0,
                                   'positional': i % 5 == 0})
+    # the other single-byte character sets, and other SPELLINGS of the same ones (aliases, capitals): short fixed-width
+    # text is padded with the character set's own blank, whatever the codec is called
+    spellings = [('cp273', None), ('cp1140', None), ('ascii', None), ('cp500', 'IBM500'), ('cp500', 'CP500'),
+                 ('cp500', 'ebcdic-cp-be'), ('cp037', 'IBM037'), ('cp037', 'ebcdic_cp_us'), ('latin_1', 'iso-8859-1'),
+                 ('latin_1', 'L1'), ('cp1140', 'ibm1140'), ('cp273', 'IBM273')]
+    for si, (codec, name) in enumerate(spellings):
+        for b in (0, 1):
+            pairs = []
+            for n in range(4):
+                short = {'MTI': '1240', 'DE41': 'TERM' + str(n), 'DE42': 'MERCHANT ' + str(n), 'DE37': 'RRN',
+                         'DE2': '5' * (13 + n), 'DE3': '000000'}
+                pairs.append((short, {**short, 'DE41': short['DE41'].ljust(8), 'DE42': short['DE42'].ljust(15),
+                                      'DE37': 'RRN'.ljust(12)}))
+                m, e = iu.gen_message(rng, pkg, codec, with_pds=(n % 2 == 0))
+                if len(iu.ref_encode(m, pkg, codec, False)) <= c07.c03max():
+                    pairs.append((m, e))
+            c = {'k': 'file', 'cfg': 'pkg', 'codec': codec, 'b': b,
+                 'msgs': [iu.dict_wire(m) for m, _ in pairs], 'exps': [iu.dict_wire(e) for _, e in pairs],
+                 'with': si % 2 == 0, 'many': False, 'defaultcfg': si % 3 == 0}
+            if name:
+                c['codec_name'] = name
+            cases.append(c)
     # two logical files — file header (1644 / function code 697) ... file trailer (1644 / 695) — in ONE physical file:
     # every message is a record like any other, wherever the trailer messages stand
     for codec in codecs3:
